@@ -1562,3 +1562,18 @@ pub proof fn lemma_childless_not_anc<T>(s: Seq<Node<T>>, w: Ranks, x: int, y: in
     }
 }
 
+/// what `new_node(data)` does to an arena (C07); `append_value` is stated in terms of it (C03)
+pub open spec fn alloc_post<T>(o: Arena<T>, n: Arena<T>, r: NodeId, data: T) -> bool {
+    &&& n.live(r) && n.at(r).data == NodeData::Data(data) && no_links(n.at(r))
+    &&& r.idx() < o.nodes@.len() ==> o.nodes@[r.idx()].stamp.can_reuse() && r.stamp.0 as int == o.nodes@[r.idx()].stamp.hw() + 1
+        && n.nodes@.len() == o.nodes@.len()
+    &&& r.idx() >= o.nodes@.len() ==> r.idx() == o.nodes@.len() && r.stamp.0 == 0 && n.nodes@.len() == o.nodes@.len() + 1
+    &&& forall|i: int| 0 <= i < o.nodes@.len() && i != r.idx() ==> n.nodes@[i] == o.nodes@[i]
+    &&& forall|fl: Seq<int>| #[trigger]
+        free_list(o.nodes@, o.first_free_slot, o.last_free_slot, fl) ==> (if fl.len() > 0 {
+            r.idx() == fl[0] && free_list(n.nodes@, n.first_free_slot, n.last_free_slot, fl.drop_first())
+        } else {
+            r.idx() == o.nodes@.len() && free_list(n.nodes@, n.first_free_slot, n.last_free_slot, fl)
+        })
+}
+
